@@ -71,6 +71,7 @@ type chain struct {
 	CondOn bool
 	Gt     int
 	Eq     int // -1: none; else the chain continues with Or("v = ?", Eq)
+	Lone   bool // the chain's only condition is Or("v = ?", Eq)
 	Order  string // "" asc desc
 	Calls  []call
 	Scope  string // how the condition is supplied: "" Where; plain | session | withctx: through a Scopes function
@@ -78,7 +79,9 @@ type chain struct {
 
 func (c chain) apply(db *gorm.DB) *gorm.DB {
 	tx := db.Session(&gorm.Session{})
-	if c.CondOn {
+	if c.CondOn && c.Lone {
+		tx = tx.Or("v = ?", c.Eq)
+	} else if c.CondOn {
 		gt := c.Gt
 		switch c.Scope {
 		case "plain":
@@ -213,7 +216,7 @@ func (e *env) observe(c chain, batchSizes []int) hx.M {
 		o["count_find"], o["count_find_err"] = ids, ec(res.Error)
 	}
 	// Count (without limit / offset), single-record finders (no order/limit/offset of the user's)
-	bare := chain{CondOn: c.CondOn, Gt: c.Gt, Eq: c.Eq, Scope: c.Scope}
+	bare := chain{CondOn: c.CondOn, Gt: c.Gt, Eq: c.Eq, Lone: c.Lone, Scope: c.Scope}
 	{
 		var n int64
 		res := bare.apply(e.db).Model(&R{}).Count(&n)
@@ -242,7 +245,7 @@ func (e *env) observe(c chain, batchSizes []int) hx.M {
 		o["scan_prim"], o["scan_prim_err"] = n, ec(res.Error)
 	}
 	// FindInBatches (no user Order): limit/offset calls apply
-	bc := chain{CondOn: c.CondOn, Gt: c.Gt, Eq: c.Eq, Calls: c.Calls, Scope: c.Scope}
+	bc := chain{CondOn: c.CondOn, Gt: c.Gt, Eq: c.Eq, Lone: c.Lone, Calls: c.Calls, Scope: c.Scope}
 	bobs := []hx.M{}
 	for _, bs := range batchSizes {
 		var out []R
@@ -292,7 +295,7 @@ func callsJ(c []call) []hx.M {
 }
 
 func event(caseNo int, t []trow, c chain, o hx.M) hx.M {
-	return hx.M{"ev": "Read", "case": caseNo, "table": tableJ(t), "cond": hx.M{"on": c.CondOn, "gt": c.Gt, "eq": c.Eq}, "order": c.Order,
+	return hx.M{"ev": "Read", "case": caseNo, "table": tableJ(t), "cond": hx.M{"on": c.CondOn, "gt": c.Gt, "eq": c.Eq, "lone": c.Lone}, "order": c.Order,
 		"calls": callsJ(c.Calls), "scope": c.Scope, "obs": o}
 }
 
@@ -385,6 +388,7 @@ func random(args []string) error {
 		c := chain{CondOn: r.Intn(2) == 0, Gt: r.Intn(7), Order: []string{"", "asc", "desc"}[r.Intn(3)], Scope: []string{"", "", "plain", "session", "withctx"}[r.Intn(5)], Eq: -1}
 		if c.CondOn && c.Scope == "" && r.Intn(3) == 0 {
 			c.Eq = r.Intn(7)
+			c.Lone = r.Intn(3) == 0
 		}
 		for k := 0; k < r.Intn(5); k++ {
 			v := 1 + r.Intn(8)
